@@ -1,16 +1,16 @@
 # C19 Value generators follow the iterator protocol and their formulas
 ASSUMPTIONS = ["generators built through their C constructors with concrete bounds (linear: 0..n-1 step 1; boundary: 10/20/30), element count symbolic",
                "text descriptions (mpt_iterator_create) and the factor/poly/values/file generators are outside the built queries"]
-U = ["mptplot/values/iterator_linear.c", "mptplot/values/iterator_boundary.c"]
-FP = [(r"convertable\.convert", ["iterConv", "iterBoundaryConv", "iterRangeConv"]), (r"_vptr\)\.value", ["iterValue", "iterBoundaryValue", "iterRangeValue"]),
-      (r"_vptr\)\.advance", ["iterAdvance", "iterBoundaryAdvance", "iterRangeAdvance"]), (r"_vptr\)\.reset", ["iterReset", "iterBoundaryReset", "iterRangeReset"]),
-      (r"_vptr\)\.clone", ["iterClone", "iterBoundaryClone", "iterRangeClone"]), (r"_vptr\)\.unref", ["iterUnref", "iterBoundaryUnref", "iterRangeUnref"])]
+U = ["mptplot/values/iterator_linear.c", "mptplot/values/iterator_boundary.c", "mptplot/values/iterator_factor.c"]
+FP = [(r"convertable\.convert", ["iterConv", "iterBoundaryConv", "iterFactorConv"]), (r"_vptr\)\.value", ["iterValue", "iterBoundaryValue", "iterFactorValue"]),
+      (r"_vptr\)\.advance", ["iterAdvance", "iterBoundaryAdvance", "iterFactorAdvance"]), (r"_vptr\)\.reset", ["iterReset", "iterBoundaryReset", "iterFactorReset"]),
+      (r"_vptr\)\.clone", ["iterClone", "iterBoundaryClone", "iterFactorClone"]), (r"_vptr\)\.unref", ["iterUnref", "iterBoundaryUnref", "iterFactorUnref"])]
 
 
 def queries(tier):
     k = 5 if tier == "quick" else 8
     qs = []
-    for (kind, nm) in ((1, "linear"), (2, "boundary")):
+    for (kind, nm) in ((1, "linear"), (2, "boundary"), (3, "factor")):
         qs.append(Q("protocol_" + nm, "C19/protocol.c", units=U,
                     harness_defines={"KIND": kind, "K": k, "NMAX": 4}, unwind_default=k + 2, fp=FP,
                     flags=["--memory-leak-check"], stubs=["libc.c", "c19_unused.c"],
